@@ -343,7 +343,7 @@ fn mutate(base: &[u8], seed: u64, n: u8) -> Vec<u8> {
 // ---------------------------------------------------------------------------------------------
 // crafted corpus: one archive per hazard class × codec
 
-pub const N_HAZARDS: u32 = 25;
+pub const N_HAZARDS: u32 = 27;
 
 fn one_tile_parts(ic: u8) -> Parts {
     let h = SpecHeader { ic, tc: 1, tt: 1, clustered: 1, n_addressed: 1, n_entries: 1, n_contents: 1, ..SpecHeader::default() };
@@ -428,7 +428,27 @@ pub fn crafted(id: u32) -> (String, Vec<u8>) {
         21 => ("root length 2^64-1", join(&p, &plain_root, &p.meta, &p.leaves, &p.data, |h| h.root_length = u64::MAX)),
         22 => ("root offset near 2^64", join(&p, &plain_root, &p.meta, &p.leaves, &p.data, |h| h.root_offset = u64::MAX - 10)),
         23 => ("run length 2^32-1 (outside the claim: declared expansion)", with_root(Cols { count: 1, deltas: vec![3], runs: vec![(1 << 32) - 1], lens: vec![4], offs: vec![1] })),
-        _ => ("offset + length wraps in a tile entry", with_root(Cols { count: 1, deltas: vec![3], runs: vec![1], lens: vec![(1 << 32) - 1], offs: vec![u64::MAX] })),
+        24 => ("offset + length wraps in a tile entry", with_root(Cols { count: 1, deltas: vec![3], runs: vec![1], lens: vec![(1 << 32) - 1], offs: vec![u64::MAX] })),
+        25 | 26 => {
+            // a compressed stream whose own header declares an absurd decompressed size:
+            // zstd frame, single segment, 8-byte content size field, one empty raw last block
+            let declared: u64 = if hz == 25 { 1 << 62 } else { (1 << 40) + 12345 };
+            let mut frame = vec![0x28, 0xB5, 0x2F, 0xFD, 0xE0];
+            frame.extend_from_slice(&declared.to_le_bytes());
+            frame.extend_from_slice(&[0x01, 0x00, 0x00]);
+            // gzip: trailer ISIZE says 2^32-1 for an empty member
+            let mut gz = spec::compress(2, b"").unwrap();
+            let n = gz.len();
+            gz[n - 4..].copy_from_slice(&u32::MAX.to_le_bytes());
+            let blob = if ic == 2 { gz } else { frame };
+            // as metadata, and as the (only) tile
+            let mut pp = one_tile_parts(if ic == 2 { 2 } else { 4 });
+            pp.data = blob.clone();
+            pp.root = vec![SpecEntry { tile_id: 3, offset: 0, length: blob.len() as u32, run_length: 1 }];
+            let rootb = spec::compress(pp.h.ic, &spec::encode_dir(&pp.root)).unwrap();
+            ("compressed stream declaring an absurd decompressed size", join(&pp, &rootb, &blob, &[], &blob, |_| {}))
+        }
+        _ => unreachable!("hazard class {hz}"),
     };
     (format!("{name} [codec {ic}]"), img)
 }
@@ -617,7 +637,15 @@ fn battery(img: &[u8], seed: u64, ctx: &mut Ctx) -> V<()> {
             }
         }
         for id in &probes {
-            let _ = sut::guard("get_tile_by_id", || pm.get_tile_by_id(*id).map(|o| o.map(|b| b.len())))?;
+            let got = sut::guard("get_tile_by_id", || pm.get_tile_by_id(*id))?;
+            // tiles are compressed payloads: hand what came back to every one-shot decoder
+            if let Ok(Some(b)) = got {
+                if b.len() <= 1 << 16 {
+                    for cc in 1..=4u8 {
+                        let _ = sut::guard("decompress_all(tile)", || pmtiles2::util::decompress_all(sut::comp(cc), &b).map(|v| v.len()))?;
+                    }
+                }
+            }
         }
         for z in [0u8, 1, 2, 31, 32, 33, 64, 255] {
             let n = if z < 64 { 1u64 << z } else { 0 };
